@@ -1003,6 +1003,8 @@ func c10RunCase(c *kit.Ctx, cs *c10Case) {
 	switch cs.Path {
 	case "stream":
 		c10DriveStream(c, o)
+	case "service":
+		c10DriveService(c, o)
 	default:
 		c10DrivePackage(c, o)
 	}
@@ -1327,7 +1329,7 @@ func (l *c10Lister) add(cs c10Case) {
 	if cs.PS < 0 || cs.PS > 1 {
 		cs.PS = 0
 	}
-	if cs.Path == "stream" && cs.F < 5 {
+	if (cs.Path == "stream" || cs.Path == "service") && cs.F < 5 {
 		cs.F = 5
 	}
 	c10RunCase(l.c, &cs)
@@ -1471,6 +1473,20 @@ func runC10(c *kit.Ctx) {
 				}
 				l.add(c10Case{Family: "stream", Path: "stream", Mode: mode, F: F, Gops: g, Audio: audio, DurMs: c10Dur(F, g, audio, 6), Token: tokFor(n),
 					T0Ms: []int64{0, 500, 3000}[n%3]})
+			}
+		}
+	}
+
+	// (5b) through the real HTTP service in front of a registered stream (c10_service.go)
+	for gi, g := range sgops {
+		for ai, audio := range []string{"none", "cont"} {
+			for mi, mode := range modes {
+				n++
+				if !c.Thorough() && (gi+ai+mi)%2 == 1 {
+					continue
+				}
+				l.add(c10Case{Family: "service", Path: "service", Mode: mode, F: 5, Gops: g, Audio: audio, DurMs: c10Dur(5, g, audio, 6), Token: tokFor(n),
+					T0Ms: []int64{0, 500, 3000}[n%3], Inband: []int{0, 1}[gi%2]})
 			}
 		}
 	}
